@@ -29,10 +29,10 @@ with_char_string, try_from(HashMap)) from texts of 0..2100 bytes (every length n
 }
 
 /// accepts at most 3 bytes per call; every 5th call reports Interrupted
-struct ShortWriter {
-    buf: Vec<u8>,
-    pos: usize,
-    calls: usize,
+pub struct ShortWriter {
+    pub buf: Vec<u8>,
+    pub pos: usize,
+    pub calls: usize,
 }
 impl Write for ShortWriter {
     fn write(&mut self, b: &[u8]) -> std::io::Result<usize> {
